@@ -37,6 +37,10 @@ SumSeq(s) == IF s = <<>> THEN 0 ELSE Head(s) + SumSeq(Tail(s))
 \*   link    a = uri class       newpage / skip: no arguments
 Call(k, a, b, c, d) == [k |-> k, a |-> a, b |-> b, c |-> c, d |-> d]
 Skip == Call("skip", 0, 0, 0, 0)
+\* view: from here on every element is placed about 3e9 units from the origin (a = 1: +3000000000.5, a = 2: -3000000000.25) and
+\* new pages are 800000000.5 mm wide, so that coordinates, matrices, rectangles and the MediaBox hold non-integral numbers
+\* beyond the 32-bit range (the number syntax of 7.3.3 must still be met).  Writes no object.
+View(a) == Call("view", a, 0, 0, 0)
 NewPageC == Call("newpage", 0, 0, 0, 0)
 
 SmallCalls ==
@@ -58,7 +62,7 @@ FullCalls ==
      \cup {Call("text", f, s, 0, 0) : f \in 1..2, s \in 1..2} \cup {Call("text", f, 2, 1, 0) : f \in 1..2}
      \cup {Call("text", 3, s, 0, 0) : s \in 1..8}      \* standard font: also the strings with parentheses and backslash
      \cup {Call("link", u, 0, 0, 0) : u \in 1..2}
-     \cup {NewPageC}
+     \cup {NewPageC} \cup {View(1), View(2)}
 Calls == IF Alpha = "small" THEN SmallCalls ELSE FullCalls
 
 \* ---- metadata request --------------------------------------------------------------------------
@@ -138,7 +142,7 @@ Finished == [n |-> nobj + 2, nfont |-> Len(pg.fonts), nxobj |-> Len(pg.xobj), an
              covered |-> pg.useF \subseteq 1..Len(pg.fonts) /\ pg.useX \subseteq 1..Len(pg.xobj)]
 
 Exec(c) ==
-  CASE c.k \in {"path", "skip"} -> NoWrite /\ UNCHANGED <<pg, done, fH, fV, fS, ims>>
+  CASE c.k \in {"path", "skip", "view"} -> NoWrite /\ UNCHANGED <<pg, done, fH, fV, fS, ims>>
     [] c.k = "link" -> NoWrite /\ pg' = [pg EXCEPT !.annots = @ + 1] /\ UNCHANGED <<done, fH, fV, fS, ims>>
     [] c.k = "image" ->
          LET r == Find(ims, c.a) IN
@@ -169,7 +173,7 @@ Exec(c) ==
 PL == Len(prog)
 StepK(kinds) == /\ pc <= PL /\ prog[pc].k \in kinds /\ Exec(prog[pc]) /\ pc' = pc + 1 /\ UNCHANGED scen
 \* one named action per kind of call (so that -coverage shows that none is vacuous)
-DoPath == StepK({"path", "skip"})
+DoPath == StepK({"path", "skip", "view"})
 DoLink == StepK({"link"})
 DoImageNew == StepK({"image"}) /\ Find(ims, prog[pc].a) = 0
 DoImageShared == StepK({"image"}) /\ Find(ims, prog[pc].a) # 0
@@ -212,6 +216,9 @@ Init ==
        [] Gen = "random" -> /\ prog \in RandomSubset(NRand, Progs)
                             /\ opts \in [compress : BOOLEAN, subset : BOOLEAN]
                             /\ info \in RandomSubset(2, AllProfiles) /\ infoAt \in {0, 1}
+       [] Gen = "far" ->    \* huge coordinates: every call of the small alphabet after a view change, then nothing / a link / a new page
+                            /\ prog \in {<<View(a), c, b>> : a \in 1..2, c \in SmallCalls, b \in {Skip, Call("link", 1, 0, 0, 0), NewPageC}}
+                            /\ opts \in {[compress |-> TRUE, subset |-> TRUE], [compress |-> FALSE, subset |-> FALSE]} /\ info = Mixed /\ infoAt = 0
        [] Gen = "std" ->    \* text in a standard (not embedded, WinAnsi literal strings) font: strings 3..8 are a(b  a)b  a\b  (x)
                             \* "1) item :-("  "[0, 1)" - unbalanced / balanced parentheses and a backslash inside a shown string
                             /\ prog \in {<<a, Call("text", 3, t, 0, 0), b>> : a \in {Call("path", 1, 0, 0, 1), Call("text", 1, 1, 0, 0), Call("text", 3, 1, 0, 0)},
